@@ -1076,7 +1076,8 @@ mod if_alloc {
         }
 
         /// A reference to the state of a shared channel which is not counted
-        /// as sender or receiver (verification hook)
+        /// as sender or receiver and does not keep the state alive (a `Weak`:
+        /// the strong count is what the crate itself sees; verification hook)
         #[cfg(futures_intrusive_verif)]
         pub struct VerifSharedChannel<MutexType, T, A>
         where
@@ -1084,7 +1085,7 @@ mod if_alloc {
             A: RingBuf<Item = T>,
             T: 'static,
         {
-            inner: alloc::sync::Arc<GenericChannelSharedState<MutexType, T, A>>,
+            inner: alloc::sync::Weak<GenericChannelSharedState<MutexType, T, A>>,
         }
 
         #[cfg(futures_intrusive_verif)]
@@ -1110,27 +1111,34 @@ mod if_alloc {
             pub fn verif_snapshot(
                 &self,
                 tag_of: &dyn Fn(&T) -> u64,
-            ) -> crate::verif::Snapshot {
-                let mut snap = self.inner.channel.verif_snapshot(tag_of);
+            ) -> Option<crate::verif::Snapshot> {
+                let inner = self.inner.upgrade()?;
+                let mut snap = inner.channel.verif_snapshot(tag_of);
                 snap.scalars
-                    .push(self.inner.senders.load(Ordering::SeqCst) as u64);
+                    .push(inner.senders.load(Ordering::SeqCst) as u64);
                 snap.scalars
-                    .push(self.inner.receivers.load(Ordering::SeqCst) as u64);
-                snap
+                    .push(inner.receivers.load(Ordering::SeqCst) as u64);
+                Some(snap)
             }
 
             /// `Debug` rendering of the shared state and of the channel state
-            pub fn verif_debug(&self) -> alloc::string::String
+            pub fn verif_debug(&self) -> Option<alloc::string::String>
             where
                 MutexType: core::fmt::Debug,
                 T: core::fmt::Debug,
                 A: core::fmt::Debug,
             {
-                alloc::format!(
+                let inner = self.inner.upgrade()?;
+                Some(alloc::format!(
                     "{:?} {}",
-                    *self.inner,
-                    self.inner.channel.verif_debug()
-                )
+                    *inner,
+                    inner.channel.verif_debug()
+                ))
+            }
+
+            /// Number of owners (handles, futures, streams) of the shared state
+            pub fn verif_owners(&self) -> usize {
+                self.inner.strong_count()
             }
         }
 
@@ -1143,7 +1151,7 @@ mod if_alloc {
             /// Returns an uncounted reference to the shared channel state
             pub fn verif_shared(&self) -> VerifSharedChannel<MutexType, T, A> {
                 VerifSharedChannel {
-                    inner: self.inner.clone(),
+                    inner: alloc::sync::Arc::downgrade(&self.inner),
                 }
             }
         }
